@@ -1,12 +1,19 @@
 import ScVerif.Base.Line
 import ScVerif.C15.Paging
-/-! Driver handler for C15: the state is the current listing (set by a `keys` line).
+import ScVerif.C15.Store
+/-! Driver handler for C15: the state is the collection (`keys` line: its ids in ANY order; `sop` lines: the
+creation / update / deletion operations of `Store.lean`) and its listing `sortKeys ids`.
 
 ```
-keys <hex,hex,…|->                 → ok <n>
+keys <hex,hex,…|->                 → ok <n>            (ids in insertion order; the model sorts)
+sop add <hex|-> <hex|->            → ok <hex> | exists | aborted     (id or "-" = empty: generate; candidate id)
+sop ensure <hex|->                 → ok <hex> | rejected
+sop update <hex|->                 → ok <hex> | notfound
+sop delete <hex|->                 → ok <hex> | notfound
+listing                            → <hex,…|->
 page <gt|ge> <size> <E|B|K<hex>>   → ok <hex,…|-> <N|T<hex>> <total> | err <Code> | panic
 codec <gt|ge> <hex bytes>           → <first page> | <page after its token>   or   invalid (not UTF-8)
-waste <n> <size> <E|B|I<int>>      → ok <i,…|-> <N|T<int>> <total>   | err <Code> | panic
+waste <n> <size> <E|B|I<int>> [vis] → ok <i,…|-> <N|T<int>> <total>   | err <Code> | panic   (vis=0: ids hidden, items print as _)
 ```
 Keys travel as the hex of their UTF-8 bytes. -/
 namespace ScVerif.C15
@@ -68,11 +75,54 @@ def showWPage : Out WPage → String
   | .err c => "err " ++ c.name
   | .panic => "panic"
 
-def step (keys : List String) (toks : List String) : Option (List String × String) :=
+def unhexId? (s : String) : Option String := if s = "-" then some "" else unhex? s
+
+def showRes : StoreRes → String
+  | .ok id => "ok " ++ (if id = "" then "-" else hex id)
+  | .alreadyExists => "exists"
+  | .notFound => "notfound"
+  | .aborted => "aborted"
+  | .rejected => "rejected"
+
+/-- Driver state: the collection's ids and their listing (`listing ids`, recomputed after every change). -/
+structure St where
+  ids : Store := []
+  keys : List String := []
+
+def St.apply (st : St) (op : StoreOp) : St × String :=
+  let r := st.ids.step op
+  ({ ids := r.1, keys := listing r.1 }, showRes r.2)
+
+def stepSt (st : St) (toks : List String) : Option (St × String) :=
   match toks with
   | ["keys", ks] => do
     let l ← parseKeys? ks
-    pure (l, s!"ok {l.length}")
+    pure ({ ids := l, keys := listing l }, s!"ok {l.length}")
+  | ["sop", "add", id, cand] => do
+    let id ← unhexId? id
+    let cand ← unhexId? cand
+    pure (st.apply (.add id (fun _ => cand)))
+  | ["sop", "ensure", id] => do
+    let id ← unhexId? id
+    pure (st.apply (.ensure id))
+  | ["sop", "update", id] => do
+    let id ← unhexId? id
+    pure (st.apply (.update id))
+  | ["sop", "delete", id] => do
+    let id ← unhexId? id
+    pure (st.apply (.delete id))
+  | ["listing"] => pure (st, showKeys st.keys)
+  | _ => none
+
+def showWShown : Out WShown → String
+  | .ok p =>
+    let items := if p.items.isEmpty then "-" else ",".intercalate (p.items.map fun | some i => toString i | none => "_")
+    s!"ok {items} {match p.next with | none => "N" | some k => "T" ++ toString k} {p.total}"
+  | .err c => "err " ++ c.name
+  | .panic => "panic"
+
+def step (keys : List String) (toks : List String) : Option (List String × String) :=
+  match toks with
   | ["page", v, size, tok] => do
     let v ← parseVariant? v
     let size ← parseInt? size
@@ -97,11 +147,20 @@ def step (keys : List String) (toks : List String) : Option (List String × Stri
     let size ← parseInt? size
     let tok ← parseWTok? tok
     pure (keys, showWPage (listWaste n tok size))
+  | ["waste", n, size, tok, vis] => do
+    let n ← parseNat? n
+    let size ← parseInt? size
+    let tok ← parseWTok? tok
+    let vis ← parseBool? vis
+    pure (keys, showWShown (listWasteMasked n tok size vis))
   | _ => none
 
-def handleS (keys : List String) (toks : List String) : List String × String :=
-  match step keys toks with
+def handleS (st : St) (toks : List String) : St × String :=
+  match stepSt st toks with
   | some r => r
-  | none => (keys, "!bad-op")
+  | none =>
+    match step st.keys toks with
+    | some r => (st, r.2)
+    | none => (st, "!bad-op")
 
 end ScVerif.C15
